@@ -108,7 +108,8 @@ def check(run) -> None:
         run.sample({"script": langcheck.body_of(res[clean[0]["id"]]["src"]), "py_live_per_pass": lv[clean[0]["id"]],
                     "events": res[clean[0]["id"]].get("events", [])[:8]})
     # ---- the same programs' values (three-way), without the sanitizer
-    vals = lang.three_way(clean[: (80 if quick else 600)], run, "values of heap programs")
+    same_values = [p for p in clean if "list-alias-mutation" not in ev[p["id"]]["feat"]]     # aliasing changes values (C01's finding), not memory safety
+    vals = lang.three_way(same_values[: (80 if quick else 600)], run, "values of heap programs")
     for pid, r3 in vals.items():
         if langcheck.outcome(r3) in ("mismatch", "run_fail"):
             run.violation(f"{pid}: list/str program prints a wrong value: {langcheck.describe(pid, r3)}", langcheck.replay_of({"id": pid}, r3))
